@@ -216,6 +216,35 @@ M("system-slice-ignores-step", ["C11"], "gaddlemaps/components/_system.py",
   "                for info in islice_extended(self._molecules_ordered_all_gen(),\n                                            index.start, index.stop,\n                                            None):")
 M("system-multi-residue-stride", ["C11"], "gaddlemaps/components/_system.py",
   "                yield (index, gro_start+i*len_mol, gro_start+(i+1)*len_mol)", "                yield (index, gro_start+i, gro_start+i+len_mol)")
+# ---- restraint routing -------------------------------------------------------------------------
+M("restr-reversed-unconditionally", ["C10"], "gaddlemaps/_alignment.py",
+  "            molecules = [self.start, self.end]\n", "            molecules = [self.start, self.end]\n            restrictions = [i[::-1] for i in restrictions]\n")
+M("restr-not-reversed-on-swap", ["C10"], "gaddlemaps/_alignment.py",
+  "            restrictions = [i[::-1] for i in restrictions]\n", "")
+M("remove-h-off-by-one", ["C10"], "gaddlemaps/_alignment.py",
+  "            index_1map[index] = len(positions) - 1", "            index_1map[index] = len(positions)")
+M("remove-h-keeps-hydrogen-restraints", ["C10"], "gaddlemaps/_alignment.py",
+  "        if index_1 in index_1map:\n            new_restrictions.append((index_1map[index_1], index_2))",
+  "        new_restrictions.append((index_1map.get(index_1, 0), index_2))")
+M("remove-h-no-reindex", ["C10"], "gaddlemaps/_alignment.py",
+  "            new_restrictions.append((index_1map[index_1], index_2))", "            new_restrictions.append((index_1, index_2))")
+M("guess-residue-offset-swapped", ["C10"], "gaddlemaps/_alignment.py",
+  "        restr += [(i+offset1, j+offset2) for i in group1 for j in group2]", "        restr += [(i+offset2, j+offset1) for i in group1 for j in group2]")
+M("guess-split-floor-bug", ["C10"], "gaddlemaps/_alignment.py",
+  "    return [alist[i*length // wanted_parts: (i+1)*length // wanted_parts]", "    return [alist[i*(length // wanted_parts): (i+1)*(length // wanted_parts)]")
+M("guess-protein-accepts-unequal", ["C10"], "gaddlemaps/_alignment.py",
+  "    if len(mol1.resnames) != len(mol2.resnames):", "    if False:")
+M("guess-protein-offset-uses-other-length", ["C10"], "gaddlemaps/_alignment.py",
+  "        offset2 += len(mol_res2)", "        offset2 += len(mol_res1)")
+M("manager-deform-routed-by-position", ["C10"], "gaddlemaps/_manager.py",
+  "            defor = deformation_types[name]", "            defor = list(deformation_types.values())[list(restrictions).index(name) - 1] if len(deformation_types) > 1 else deformation_types[name]")
+M("manager-ignore-validated-late", ["C10"], "gaddlemaps/_manager.py",
+  "                if not isinstance(val, bool):\n                    raise ValueError(('Wrong format for ignore_hydrogens. See '\n                                      'documentation of align_molecules method.'\n                                      ''))",
+  "                pass")
+M("manager-unknown-deform-name-ignored", ["C10"], "gaddlemaps/_manager.py",
+  "        for name in deformations:\n            if name not in complete_correspondence:", "        for name in deformations:\n            if False:")
+M("manager-restraint-index-not-validated", ["C10"], "gaddlemaps/_manager.py",
+  "            try:\n                ind2 = mol_end[tup[1]]\n            except IndexError:\n                raise ValueError(msg_index.format(tup[1], 'final'))", "            pass")
 # ---- pbc --------------------------------------------------------------------------
 M("pbc-floor-instead-of-round", ["C19"], "gaddlemaps/components/_residue.py",
   "            vect -= np.round(vect)", "            vect -= np.floor(vect)")
